@@ -16,6 +16,14 @@ Theorem C13_source_shapes_ok : shape_ok thread_shape = true /\ shape_ok mux_shap
 Proof. exact source_shapes_ok. Qed.
 Print Assumptions C13_source_shapes_ok.
 
+(* Tie to the source, thread server: Worker.run does not write its job slot after it has handed itself back to the
+   pool.  (The model's Connect gives an accepted connection a slot and serves it; that presupposes that a job the
+   accept loop stores in a just-idled worker is not overwritten.  The interleaving itself is exercised on the real
+   daemon by the harness' forced hand-over scenarios and, schedule by schedule, by C18.) *)
+Theorem C13_source_worker_handback_ordered : worker_job_cleared_before_handback = true.
+Proof. exact source_worker_handback_ordered. Qed.
+Print Assumptions C13_source_worker_handback_ordered.
+
 (* For every event sequence over any number of connections, both server types, any pool size, and every
    connection c that passed the handshake and has ended (in whatever way): the events split at the event at
    which c ended; with s = the connection's state at that moment (after the part of that event that was still
